@@ -196,7 +196,7 @@ def op_long_window(rng, name, n, tail_start=None):
     return {'k': 'sys', 'name': name, 's': s, 'e': e, 'in': inner}
 
 
-LONG_SIZES = [1030, 2050, 4100, 8200, 16400, 33000]
+LONG_SIZES = [1030, 2050, 4100, 8200, 16400, 33000, 66000]
 
 
 class Ctx:
@@ -307,9 +307,15 @@ def gen_ops(rng, ctx, n_ops, mix=None, depth=0):
     return ops
 
 
+SPECIAL_TIDS = [(1 << 61) - 1, 1 << 61, 1 << 32, (1 << 63) + 1, (1 << 64) - 1, 1, 2]
+
+
 def gen_threads(rng, nthreads, ops_lo=1, ops_hi=8, mix=None, peers=False):
     threads = []
     tids = [100 + ti * 17 + rng.randrange(0, 9) for ti in range(nthreads)]
+    if rng.chance(0.1):
+        tids[rng.randrange(nthreads)] = rng.pick(SPECIAL_TIDS)      # ids at the edges of the 64-bit range / of Python's int hashing
+    rng.pool = tuple(tids) + tuple((ti + 1) * 1000 + 1 for ti in range(nthreads)) + tuple((ti + 1) * 100000 + 1 for ti in range(nthreads))
     for ti in range(nthreads):
         ctx = Ctx(ti, tids[ti], tids if peers else None)
         threads.append({'tid': tids[ti], 'ops': gen_ops(rng, ctx, rng.randint(ops_lo, ops_hi), mix)})
